@@ -547,6 +547,11 @@ class ConnectionPool(Entity):
 
     def _create_connection(self) -> Generator[float, None, Connection]:
         """Create a new connection to the target."""
+        # Reserve the slot before the set-up latency: an acquire() arriving while
+        # this connection is still being established must count it, or the pool
+        # grows beyond max_connections.
+        self._total_connections += 1
+
         # Simulate connection establishment time
         latency = self._connection_latency.get_latency(self.now)
         yield latency.to_seconds()
@@ -558,7 +563,6 @@ class ConnectionPool(Entity):
             last_used_at=self.now,
             is_active=False,
         )
-        self._total_connections += 1
         self._connections_created += 1
 
         logger.debug(
